@@ -45,6 +45,21 @@ CHECKS = {
  "C08": ("e4 resp", "model_checking", "bounded-exhaustive frames x sequences x segmentations x Pending/EOF scripts through the real Connection over a scripted stream under a hand-written executor",
          "Frame sequences (all kinds, i64 extremes, bulk strings with CR/LF/NUL and 8192/8193 bytes, arrays up to length 3|4, sequences up to 3|4 frames) are encoded by the real write_frame (bytes compared with an independent encoder) and decoded by the real read_frame under every segmentation (all 2^(n-1) for n <= 14|17 bytes; whole, byte-wise, all single cuts, pairs near the ends otherwise), every placement of <= 2 Pending answers, and every strict prefix followed by silence (must stay incomplete) or EOF (must be an error unless at a frame boundary).",
          "Nested arrays cannot be written by write_frame (unimplemented!) and are outside 'any frame the connection can write'.", "DESIGN.md §5 E4, §6 C08"),
+ "C06": ("e5 net", "model_checking", "bounded-exhaustive request words x delivery patterns (every single cut, every pair of cuts, byte-wise, pipelined, lock-step) against the real server on a harness-owned runtime; map-model oracle on the complete reply stream",
+         "Request words up to depth 3|4 over 12 requests (SET/GET/DEL, multi-key DEL with repeats and misses, values with CR LF NUL and empty, a 2-byte UTF-8 key) plus words with a 9 000-byte value; each word's byte stream is delivered to a fresh real server whole, in lock-step, one byte per recv, with every single cut and (short words) every pair of cuts, the interposed recv handing over exactly the scripted segments. The complete reply stream up to end-of-stream must equal the reference encoding of the map model's answers; the store read through the handle must equal the model.",
+         "Current-thread runtime; tokio primitives trusted; real loopback TCP.", "DESIGN.md §5 E5, §6 C06"),
+ "C10": ("e5 net", "model_checking", "bounded-exhaustive hostile byte streams x endings x position relative to control traffic against the real server; liveness of the server thread and correctness of control / fresh connections as oracle",
+         "ALL byte strings of length <= 4|5 over 12 symbols, every truncation and single-byte substitution of SET/GET/DEL requests, unknown/lower-case commands, every arity 0..4, every non-bulk frame type in every argument position, non-UTF-8 keys, nesting up to 300 000, declared lengths up to 2^64-1, 70 000 NULs, half of a 70 000-byte value; each with endings close / half-close / leave open. The server thread must stay alive (a process abort kills the worker and is reported with the case in progress), the control connection and a fresh connection must get the model's answers, the hostile connection must see exactly the replies of its well-formed prefix, the store may differ from the model only by that prefix, and run() must still return on shutdown.",
+         "The reference command interpreter mirrors the parser's documented leniency; in-process server (an abort is attributed through the progress file).", "DESIGN.md §5 E5, §6 C10"),
+ "C11": ("e5 net", "model_checking", "exhaustive interleavings of gated store-entry / store-return events of concurrent clients on the real server; linearizability + exact per-call oracle",
+         "2 clients x programs of 1-2 commands over 5 commands, 3 clients x 1 command (thorough: 3 clients x <= 2 commands), and a variant with rollover at every write and a merge after every store entry: every command is held by a KeyValueStorage wrapper before it enters the store and before it returns, and EVERY interleaving of those events is executed. Each reply must encode what its own store call returned; store-level and client-level histories must be linearizable against the map model; one-at-a-time schedules must match the model in entry order exactly; no reply is readable while its command is held; one reply per request.",
+         "Command granularity: what happens inside two overlapping store calls is C04's subject; tokio's multi-thread scheduler is not enumerated.", "DESIGN.md §5 E5, §6 C11"),
+ "C15": ("e5 net", "model_checking", "explicit-state search over connection-event words on the real server with a reference model of the accept loop checked after every event",
+         "max_connections N in {1, 2}; events: connect a client that sends GET / nothing / half a frame / malformed bytes / triggers a panic in its handler task, or close the i-th open client; ALL words with up to 3|4 connections and length <= 6|8. After every event the served set must equal the FIFO accept model (served ones answered, waiting ones silent at quiescence, number of commands that reached the store equal to the model's); after every word N fresh connections are served concurrently, one more is not, and it is served once one of them closes.",
+         "Quiescence = server thread parked in epoll_wait with nothing ready and no store call in flight, plus a stability window; negative observations can only miss.", "DESIGN.md §5 E5, §6 C15"),
+ "C16": ("e5 net", "model_checking", "exhaustive connection-state x shutdown-moment x release-order enumeration on the real server",
+         "1 and 2 connections, each in one of: idle (0 or 1 commands done), every strict prefix of a request sent, command held before the store, command held after the store call, two pipelined requests with the first held, an 8 MiB reply stalled on a client that does not read; then the shutdown signal; then every order of the remaining release/resume events. run() must not return while a command is in flight and must return once everything is released; in-flight commands are answered completely and never torn; every client's stream parses as complete replies then end of stream; acknowledged commands are in the store; incomplete requests change nothing.",
+         "A client that never resumes reading keeps run() waiting (the statement conditions termination on connections winding down).", "DESIGN.md §5 E5, §6 C16"),
 }
 
 NOT_YET = {
